@@ -212,7 +212,7 @@ func runScenario(ctx *hx.Ctx, w *crashsim.World, scn *crashsim.Scenario, source 
 	log := n.Eng.Log(0, n.Eng.Len())
 	images := 0
 	for k := n.Base + 1; k < len(log); k++ {
-		if crashsim.BatchKind(log[k]) != crashsim.SpQuality || images >= 3 {
+		if !strings.HasPrefix(crashsim.BatchKind(log[k]), crashsim.SpQuality) || images >= 3 {
 			continue
 		}
 		images++
